@@ -190,7 +190,40 @@ def decode_impl(payload):
     d3 = SensorDataMessage(message=bytearray(payload)).data
     if canon.show(d3) != s1 or canon.show(frame.data) != s1:
         purity.append("decode on a fresh object differs")
-    return ("ok", d1), purity
+    # decoded values belong to the caller: modify a deep copy-free view of them in place and decode again
+    import copy
+    keep = copy.deepcopy(d1)
+    try:
+        _scramble(d3)
+    except Exception:  # noqa: BLE001
+        pass
+    d4 = SensorDataMessage(message=bytearray(payload)).data
+    if canon.show(d4) != s1:
+        purity.append("decode after the previously decoded values were modified in place differs (decoded objects are shared between decodes)")
+    return ("ok", keep), purity
+
+
+def _scramble(x, depth=0):
+    if depth > 6:
+        return
+    if isinstance(x, dict):
+        for k in list(x):
+            v = x[k]
+            _scramble(v, depth + 1)
+            if isinstance(v, bool):
+                x[k] = not v
+            elif isinstance(v, int):
+                x[k] = int(v) + 1
+            elif isinstance(v, float):
+                x[k] = 1.5
+            elif isinstance(v, str):
+                x[k] = v + "!"
+    elif isinstance(x, list):
+        for i, v in enumerate(x):
+            _scramble(v, depth + 1)
+            if isinstance(v, (bool, int, float)):
+                x[i] = 0
+        x.append(None)
 
 
 def gen_wellformed(rng, tier):
